@@ -138,6 +138,7 @@ func ExecPlan(t *testing.T, p *Plan, prop Property, keepLog bool) (run *Run) {
 			s.SetYield(site, time.Duration(max))
 		}
 		s.panicSites = p.Panics
+		s.stmtPermille, s.stmtMaxNs = p.StmtYieldPermille, p.StmtYieldMaxNs
 		s.poolFresh = uint64(p.PoolFresh)
 		s.orderSalt = p.OrderSalt
 		s.engineConnTimeout = p.Stack.ConnTimeout
@@ -242,11 +243,13 @@ func ExecPlan(t *testing.T, p *Plan, prop Property, keepLog bool) (run *Run) {
 		run.SimTime = s.Now()
 
 		// observations at quiescence
+		s.observing.Store(true)
 		run.Final.Conn = st.RealStats.GetConnectionStats()
 		run.Final.Proxy = st.RealStats.GetProxyStats()
 		run.Final.Endpoints = st.RealStats.GetEndpointStats()
 		run.Final.Translator = st.RealStats.GetTranslatorStats()
 		prop.AtEnd(run)
+		s.observing.Store(false)
 		run.Results = run.Clients.Results()
 		for _, b := range run.Backends {
 			run.Exchanges = append(run.Exchanges, b.Exchanges()...)
@@ -270,6 +273,7 @@ func ExecPlan(t *testing.T, p *Plan, prop Property, keepLog bool) (run *Run) {
 		}
 		s.Drain(2 * time.Second)
 		run.OpenOllaConnsAtEnd = s.OpenConns("olla")
+		s.netDown.Store(true)
 		s.CloseAllConns()
 		// the bubble's clock stops when this function returns: keep the kernel
 		// running (simulated time is free) until every other goroutine has exited
@@ -280,6 +284,7 @@ func ExecPlan(t *testing.T, p *Plan, prop Property, keepLog bool) (run *Run) {
 				break
 			}
 			s.maxSteps += 1000
+			s.CloseAllConns() // whatever a straggler opened or left open since
 			s.Run(s.Now()+time.Duration(1+i/10)*time.Second, never)
 		}
 		run.Goroutines[1] = runtime.NumGoroutine() - baseG - 1
